@@ -298,5 +298,5 @@ def units(tier, seed):
 
 
 def replay(ob):
-    from contracts import replay_forms
-    return replay_forms.replay(ob)
+    from contracts import replay_c07
+    return replay_c07.replay(ob)
